@@ -55,6 +55,9 @@ Definition lib_divide : proc :=
 Definition lib_probe : proc :=                     (* FloatCollectValueProbe *)
   mkProc KProbe [] [] false TF [] [] (fun d _ => on_float d (fun x => Ok (d, VNum x, []))).
 
+Definition lib_copyprobe : proc :=                 (* CopyDataProbe: accepts any data, returns it (the probe value is the data object itself, opaque here) *)
+  mkProc KProbe [] [] false TAny [] [] (fun d _ => Ok (d, VNone, [])).
+
 Definition lib_sink : proc :=                      (* FloatMockDataSink(path) *)
   mkProc KSink ["path"] [] false TF [] [] (fun d _ => Ok (d, VNone, [])).
 
